@@ -9,6 +9,7 @@ R2 rayon discipline, R3 explicit nondeterminism is confined.
 import re
 
 from vlib import factbase as fb
+from vlib import q
 from .common import ctx, loc, strip_refs
 
 HASH_TY = re.compile(r"^(std::collections::(hash::map::|hash::set::|hash_map::|hash_set::)?(HashMap|HashSet)|hashbrown::\w+::(HashMap|HashSet))<")
@@ -279,6 +280,18 @@ class Taint:
         fields = []
         for a in p.get("args", []):
             if a.get("k") == "closure":
+                # `|(key, _)| *key` is `|a| a.0`: the binding the parameter pattern takes from tuple position 0
+                b_ = a["body"]
+                while b_ is not None and b_.get("k") in ("unary", "addrof", "block") and (b_.get("e") is not None):
+                    b_ = b_.get("e")
+                if b_ is not None and b_.get("k") == "mcall" and b_["name"] in ("clone", "to_owned", "as_str", "as_ref") and not b_.get("args"):
+                    b_ = b_["recv"]
+                    while b_ is not None and b_.get("k") in ("unary", "addrof"):
+                        b_ = b_.get("e")
+                if b_ is not None and b_.get("k") == "path" and b_.get("res") == "local" and len(a.get("params", [])) == 1:
+                    pos = dict(q.pat_positions(a["params"][0], "cp0"))
+                    if pos.get(b_["id"]) == "cp0>tuple.0":
+                        return "0"
                 for x in fb.walk(a["body"]):
                     if x.get("k") == "field" and x["name"] not in fields:
                         fields.append(x["name"])
